@@ -118,6 +118,13 @@ func ruleQ1(c *Ctx, id string) {
 	// Get
 	rb := P.CallsIn(get, funcIs(V.ReadBuf))
 	R.Check(len(rb) == 1, id, "kvs.Get|reads through the journal", P.Pos(get.Pos()), "Get reads with jrnl.ReadBuf (sees committed, uninstalled data)", "one ReadBuf", "Get bypasses the journal")
+	if len(rb) == 1 {
+		// a jrnl.Op keeps every object it has read: an operation that outlives one Get answers later Gets from its
+		// own buffers, whatever has been committed since
+		fresh, nb := derivesOnlyFrom(stripConv(recvOf(rb[0])), funcIs(V.JrnlBegin), 0)
+		fresh = fresh && nb > 0
+		R.Check(fresh, id, "kvs.Get|reads in an operation of its own", P.Pos(rb[0].Pos()), "the operation Get reads with is begun (jrnl.Begin) inside Get", "fresh operation per Get", "Get reads with an operation that outlives the call: jrnl.Op caches what it has read, so a key read once keeps its old value for every later Get although newer multi-puts are committed and durable")
+	}
 	cloned := false
 	for _, b := range get.Blocks {
 		for _, in := range b.Instrs {
